@@ -82,7 +82,7 @@ func (c *Ctx) ChooseCost(n int, label string, cost []int) int {
 
 // Fresh reports whether every recorded prefix choice has been consumed, i.e.
 // everything from here on has not been seen by an ancestor execution.
-func (c *Ctx) Fresh() bool { return len(c.choices) >= len(c.prefix) }
+func (c *Ctx) Fresh() bool { return c.strict || len(c.choices) >= len(c.prefix) }
 
 // Logf appends to the human-readable event trace of this execution.
 func (c *Ctx) Logf(format string, a ...any) { c.trace = append(c.trace, fmt.Sprintf(format, a...)) }
